@@ -214,7 +214,9 @@ var c10Ops = []struct {
 
 var c10Targets = gen.DecodeTargets()
 
-func c10GenHistory(r *gen.Rng, pool *gen.Pool, steps int) *c10Case {
+// forced: encodings of genuine points that the decode steps of this history must use, one after the other (the history is
+// extended until all of them have been decoded).
+func c10GenHistory(r *gen.Rng, pool *gen.Pool, steps int, forced ...oracle.Pt) *c10Case {
 	cs := &c10Case{}
 
 	var m c10Model
@@ -251,7 +253,7 @@ func c10GenHistory(r *gen.Rng, pool *gen.Pool, steps int) *c10Case {
 
 	lastLit := ""
 
-	for len(cs.Steps) < steps {
+	for len(cs.Steps) < steps || (len(forced) > 0 && len(cs.Steps) < 6*steps) {
 		k := r.Intn(total)
 
 		var op string
@@ -295,7 +297,15 @@ func c10GenHistory(r *gen.Rng, pool *gen.Pool, steps int) *c10Case {
 				b = oracle.EncC(src)
 			}
 
-			if r.Intn(12) == 0 {
+			if len(forced) > 0 {
+				sp := forced[0]
+				forced = forced[1:]
+				b = oracle.EncC(sp)
+
+				if op == "e.decodeU" || r.Bool() && op != "e.decodeC" {
+					b = oracle.EncU(sp)
+				}
+			} else if r.Intn(12) == 0 {
 				// a genuine point whose y^2 resp. x^3 has a structured stored value: must be accepted
 				if sp, ok := gen.PointWithStoredY2(c10Targets[r.Intn(len(c10Targets))]); ok {
 					b = oracle.EncC(sp)
@@ -405,6 +415,30 @@ func c10GenHistory(r *gen.Rng, pool *gen.Pool, steps int) *c10Case {
 
 func c10Generate(c *mon.Ctx) {
 	pool := gen.NewPool(c.SharedRng("pool"), 8)
+
+	// histories whose decode steps go, between them, through EVERY genuine point whose y^2 / x^3 / y / x has a structured
+	// stored value (gen.DecodeTargets), and its negation: not left to the draw
+	var steered []oracle.Pt
+
+	for _, t := range c10Targets {
+		for _, f := range []func(*big.Int) (oracle.Pt, bool){gen.PointWithStoredY2, gen.PointWithStoredX3, gen.PointWithStoredY, gen.PointWithStoredX} {
+			if p, ok := f(t); ok {
+				steered = append(steered, p, oracle.Neg(p))
+			}
+		}
+	}
+
+	sr := c.SharedRng("steered-histories")
+	stride := c.N(3, 1)
+
+	for i := 0; i+8 <= len(steered); i += 8 {
+		if (i/8)%stride != int(c.Seed%uint64(stride)) {
+			continue
+		}
+
+		cs := c10GenHistory(sr, pool, 40, steered[i:i+8]...)
+		c.Structured(func() any { return cs })
+	}
 
 	c.Random(c.N(400, 20000), func(r *gen.Rng) any { return c10GenHistory(r, pool, c.N(60, 100)) })
 
